@@ -166,7 +166,10 @@ struct SampleRun {
         GTv dbl, neg, prod, one = w.gtone(); env.lib_calls += 3;
         if (inplace) { memcpy(dbl.b, a.b, sizeof(dbl.b)); R.jv_gt_double(view, dbl.b, dbl.b); } else { R.jv_gt_double(view, dbl.b, a.b); }
         env.check(w.ct(dbl) == w.ct(w.gtmul(a, a)), "C07", "squaring:value", "gt_double(a) != a*a");
-        if (inplace) { memcpy(neg.b, a.b, sizeof(neg.b)); R.jv_gt_negate(view, neg.b, neg.b); memcpy(prod.b, neg.b, sizeof(prod.b)); R.jv_gt_add(view, prod.b, prod.b, a.b); } else { R.jv_gt_negate(view, neg.b, a.b); R.jv_gt_add(view, prod.b, neg.b, a.b); } env.check(w.ct(prod) == w.ct(one), "C07", "inversion:value", "gt_negate(a)*a != 1");
+        int addalias = (int) ((op.arg(1) >> 1) % 3);   // which operand of the group operation the result object is: the first, the second, or both (x*x into x)
+        if (inplace && addalias == 1) { memcpy(neg.b, a.b, sizeof(neg.b)); R.jv_gt_negate(view, neg.b, neg.b); memcpy(prod.b, a.b, sizeof(prod.b)); R.jv_gt_add(view, prod.b, neg.b, prod.b); env.count("probe:in_place_group_operation_result_is_second_operand"); }
+        else if (inplace && addalias == 2) { memcpy(neg.b, a.b, sizeof(neg.b)); R.jv_gt_negate(view, neg.b, neg.b); GTv sq; memcpy(sq.b, a.b, sizeof(sq.b)); R.jv_gt_add(view, sq.b, sq.b, sq.b); env.lib_calls++; env.check(w.ct(sq) == w.ct(w.gtmul(a, a)), "C07", "group-operation:value", "gt_add(x, x, x) != x*x"); R.jv_gt_add(view, prod.b, neg.b, a.b); env.count("probe:in_place_group_operation_all_three_the_same_object"); }
+        else if (inplace) { memcpy(neg.b, a.b, sizeof(neg.b)); R.jv_gt_negate(view, neg.b, neg.b); memcpy(prod.b, neg.b, sizeof(prod.b)); R.jv_gt_add(view, prod.b, prod.b, a.b); } else { R.jv_gt_negate(view, neg.b, a.b); R.jv_gt_add(view, prod.b, neg.b, a.b); } env.check(w.ct(prod) == w.ct(one), "C07", "inversion:value", "gt_negate(a)*a != 1");
         env.logf("GTPOW k=%s out=%s", k.hexstr().c_str(), sha_hex(out.b, 576, 8).c_str());
         gts.push_back(out); if (gts.size() > 6) gts.erase(gts.begin() + 1);
         env.add_case("gtpow " + (op.s.empty() ? std::string("1") : op.s[0].substr(0, 6)), k >= K().r);
@@ -272,7 +275,7 @@ struct SampleScenario : Scenario {
             if (k <= 1) { int which = r.range(0, 3); p.ops.push_back({"ZP", {ss, which}, which == 2 ? faults(f8, 15) : which == 3 ? faults(f48, 7) : faults(f32, 11)}); }
             else if (k <= 3) p.ops.push_back({"GEN", {ss, r.range(0, 1), r.range(0, 1)}, faults(f48, 12)});
             else if (k <= 5) p.ops.push_back({"GTR", {ss, (int64_t) r.below(8), r.chance(1, 4), r.chance(1, 3)}, faults(f8, 15)});
-            else if (k == 6) p.ops.push_back({"GTPOW", {(int64_t) r.below(8), r.chance(1, 3)}, {r.chance(1, 3) ? "x" + rhex(r, 32) : std::string(kcodes[r.below(20)])}});
+            else if (k == 6) p.ops.push_back({"GTPOW", {(int64_t) r.below(8), r.chance(1, 3) ? 1 + 2 * (int64_t) r.below(3) : 0}, {r.chance(1, 3) ? "x" + rhex(r, 32) : std::string(kcodes[r.below(20)])}});
             else if (k == 7) {
                 std::string h = rhex(r, 32); int m = r.range(0, 7);
                 Bn v; if (m == 0) v = K().r; else if (m == 1) v = Bn::sub(K().r, Bn(1)); else if (m == 2) v = Bn::add(K().r, Bn(1)); else if (m == 3) v = Bn::add(K().r, Bn(1).shl(255)); else if (m == 4) v = Bn::sub(Bn(1).shl(256), Bn(1)); else if (m == 5) v = Bn::sub(Bn(1).shl(255), Bn(1));
